@@ -25,7 +25,8 @@ none, any exit status, a solver that deletes its input or result file):
   outcomes    `OutcomeDocumented` (full statement) likewise: `current_outcome_not_documented`,
               `current_outcome_documented_partial`, `patched_outcome_documented`
   patch       `patched_same_when_nothing_fails` — the patch changes nothing on fault-free runs
-  wrappers    `isSatisfiableW_eq`, `solveW_select_error`, `solveW_fault_free`, `solveW_error_kinds_patched`
+  wrappers    `isSatisfiableW_eq`, `solveW_select_error`, `solveW_fault_free`, `solveW_patched_documented`,
+              `solveW_current_documented_partial`; generic: `leak_check_sound`
 -/
 import Props.C20
 import Lemmas.SolverRun
@@ -510,6 +511,11 @@ theorem solveW_select_error (v : Variant) (inst : List String) (beh : Iface → 
     (solveW v inst beh sched cmd sameas).started = false := by
   simp [solveW, h]
 
+/-- non-vacuity: an unknown `sameas` under a schedule full of faults — ValueError, nothing touched -/
+example : selectInterface (some "minisat") (some "nosuch") ["minisat"] = .error .valueError ∧
+    (solveW .current ["minisat"] (fun _ _ => politeSat) [.os, .other] (some "minisat") (some "nosuch")).trace = [] := by
+  decide +kernel
+
 /-- the complete answer, parsed, is what the fault-free model of `Solver/Select.lean` computes -/
 theorem parseAnswer_eq_runIface (f : Iface) (beh : Iface → String → Beh) (c : String) :
     parseAnswer f (beh f c) = runIface f (worldOf beh f c) := by
@@ -610,7 +616,9 @@ theorem patched_same_when_nothing_fails (inst : List String) (beh : Iface → St
   rw [(solveW_fault_free .patched inst beh sched cmd sameas hs hpolite).1,
       (solveW_fault_free .current inst beh sched cmd sameas hs hpolite).1]
 
-/-- non-vacuity: minisat installed, a polite solver, no fault -/
+/-- non-vacuity: minisat installed, a polite solver (`politeSat.rmIn = politeSat.rmOut = false`), no fault -/
+example : allOk [] = true ∧ allOk [.ok, .ok] = true ∧ politeSat.rmIn = false ∧ politeSat.rmOut = false := by decide
+
 example : (solveW .current ["minisat"] (fun _ _ => politeSat) [] (some "minisat -no-pre") none).outcome
     = .ok (true, some [1, -2]) := by decide +kernel
 
